@@ -2,6 +2,8 @@ package exec
 
 import (
 	"fmt"
+	"os"
+	"time"
 	"sort"
 	"sync"
 	"go/constant"
@@ -13,6 +15,8 @@ import (
 
 	"gosmt/sym"
 )
+
+var debugSlow = os.Getenv("VERIF_DEBUG") != ""
 
 type StreamRec struct {
 	Tag   string
@@ -350,7 +354,11 @@ func (m *Machine) sat(extra *sym.Term) bool {
 	if extra.IsFalse() {
 		return false
 	}
+	t0 := time.Now()
 	r, _ := m.S.CheckPC(m.pc, extra, nil)
+	if debugSlow && time.Since(t0) > 2*time.Second {
+		fmt.Printf("  [slow query %.1fs -> %v] pc=%d at %v\n", time.Since(t0).Seconds(), r, len(m.pc), m.stack)
+	}
 	if r == sym.Unknown {
 		m.noteInconclusive("branch-feasibility")
 		return true
@@ -673,6 +681,9 @@ func (m *Machine) execFrom(fr *frame, block *ssa.BasicBlock, prev *ssa.BasicBloc
 			if fr.loops[next] > m.Unwind {
 				panic(&pathEnd{"unwind"})
 			}
+		} else if fr.loops[next] > 0 {
+			// a loop header entered again from outside (inner loop of a nest): its bound applies per entry
+			fr.loops[next] = 0
 		}
 		prev, block = block, next
 	}
